@@ -189,7 +189,8 @@ CLAIMS = {
              "type and name; the data fingerprint saved and the one checked are the same function of the header characters "
              "(both sides tabulated by constant evaluation) and case-insensitive, the ping fingerprint is the same Base32 "
              "decoding on both sides, 4 bytes plus the record type are compared; ring indices wrap inside their arrays; the "
-             "three duplicate checks never store into the memories. Not "
+             "three duplicate checks never store into the memories, and their scan loops are left only when the index reaches the "
+             "ring length or on a match (an unused slot skips one entry, it does not end the scan). Not "
              "decided: whether the windows (4/15/30) suffice for a given replay pattern.",
         technique="must-fact dataflow with history facts and dominator reasoning, callee summaries, tabulation of the two "
                   "fingerprint routines by constant evaluation, table agreement of extents",
@@ -209,7 +210,8 @@ CLAIMS = {
         design="5 C17"),
     "C18": dict(
         text="Two of the three clauses, structurally: the session count is min(16, 2^(32-netbits) - 3) for every netmask 8..30 "
-             "(init_users' size expressions evaluated for all 23 values), allocation, initialisation loop and return value use it, "
+             "(init_users evaluated from its own statements up to the allocation for all 23 values, with the server on 10.0.0.1, "
+             "which for /30 is the last usable host), allocation, initialisation loop and return value use it, "
              "the server only builds the pool with a netmask that passed the 8..30 test and indexes sessions by the returned "
              "count; every non-negative result of find_user_by_ip, on every path including early returns, names a session for "
              "which active, authenticated, not disabled, last_pkt + 60 > now and address equality were all established. Not "
